@@ -4,5 +4,6 @@ H("c09_w3c_propagation", "C09", "seq", ["harness/c09_w3c_propagation.cc"], sdk=[
        "trace states with 0, 1, 32 and 32 maximal members against an independent encoder, followed by Extract (round trip); Extract over every <= 1 (thorough: <= 2) "
        "point mutation (22 byte classes, insert / delete / duplicate / truncate at every length / tails) of 14 well-formed and near-well-formed traceparent seeds "
        "(versions 00, 01, fe, cc, ff, 0f; exact and longer forms) and of 7 tracestate seeds, in exact-size heap blocks under ASan, against an independent W3C parser "
-       "with a three-valued oracle; a rejected header must return the caller's context itself",
+       "with a three-valued oracle; a rejected header must return the caller's context itself; absent headers answered with an empty block and with a null-data view; "
+       "the public TraceIdFromHex / SpanIdFromHex / TraceFlagsFromHex on every length 0..2N+2 with every single-byte deviation over hex / non-hex classes (no crash / out-of-bounds, all-hex input that fits decodes left-padded)",
   design_ref="5/C09")
